@@ -182,6 +182,7 @@ func (h *Handler) HandleOpenFile(ctx *Context, path string) (fs.FileInfo, error)
 	fi, err := f.Stat()
 	if err != nil {
 		log.WarnContext(ctx, "Stat failed", logutil.ErrorAttr(err))
+		h.HandleCloseFile(ctx) // failure is reported to client, so file must not stay opened
 		return nil, err
 	}
 
